@@ -184,6 +184,10 @@ class Assembly:
         body, c = X.r12_exec_asserts(body); log.append(('R12 exec-assert', c))
         body, c = X.r8_opaque_text(body); log.append(('R8 opaque-text/panic-args', c))
         body, c = X.r11_split_or_guard(body); log.append(('R11 or-pattern/guard split', c))
+        if 'select' in a:
+            body, c = X.r20_select(body); log.append(('R20 tokio::select! -> nondeterministic choice among completable arms (A-SELECT), un-chosen futures cancelled', c))
+            if c == 0:
+                raise Undecided('fn %s: expected a tokio::select! (R20)' % a['name'])
         if 'breaktype' in a:
             # breaktype="name=Type;name2=Type2"
             types = dict(x.split('=', 1) for x in a['breaktype'].split(';;'))
@@ -202,18 +206,6 @@ class Assembly:
         for sub in sec['sigsubs']:
             sig, c = _apply_sub(sub, sig, a['name'])
             log.append(('R3/R4 sig-sub %s' % sub, c))
-        if 'mutself' in a:
-            # R14: Verus rejects a `mut self` receiver: it becomes the named parameter `mut <name>: Self`, and every `self`
-            # token of the body is renamed; callers use the path form `Self::f(x, ..)` (logged //@sub in the caller)
-            nm = a['mutself']
-            if not re.search(r'\(\s*mut\s+self\s*,', sig):
-                raise Undecided('fn %s: expected a `mut self` receiver' % a['name'])
-            sig = re.sub(r'\(\s*mut\s+self\s*,', '(mut %s: Self,' % nm, sig, count=1)
-            from .rustlex import lex as _lex
-            toks = _lex(body)
-            c = sum(1 for t in toks if t.kind == 'ident' and t.text == 'self')
-            body = ''.join((nm if (t.kind == 'ident' and t.text == 'self') else t.text) for t in toks)
-            log.append(('R14 mut-self receiver -> named parameter', c + 1))
         sig = X.strip_attrs(sig)
         if sec.get('sig'):
             # R17: the signature is re-typed onto shim types (e.g. `impl Stream<Item = X>` -> `VStream<X>`); the replacement is given
@@ -223,6 +215,18 @@ class Assembly:
                 raise Undecided('fn %s: parameters %s no longer match the re-typed signature %s' % (a['name'], X.sig_params(sig), X.sig_params(new_sig)))
             sig = new_sig
             log.append(('R17 signature re-typed onto shim types (names/arity checked)', 1))
+        if 'mutself' in a:
+            # R14: Verus rejects a `mut self` receiver: it becomes the named parameter `mut <name>: Self`, and every `self`
+            # token of the body is renamed; callers use the path form `Self::f(x, ..)` (logged //@sub in the caller)
+            nm = a['mutself']
+            if not re.search(r'\(\s*mut\s+self\s*[,)]', sig):
+                raise Undecided('fn %s: expected a `mut self` receiver' % a['name'])
+            sig = re.sub(r'\(\s*mut\s+self\s*([,)])', lambda m: '(mut %s: Self%s' % (nm, m.group(1)), sig, count=1)
+            from .rustlex import lex as _lex
+            toks = _lex(body)
+            c = sum(1 for t in toks if t.kind == 'ident' and t.text == 'self')
+            body = ''.join((nm if (t.kind == 'ident' and t.text == 'self') else t.text) for t in toks)
+            log.append(('R14 mut-self receiver -> named parameter', c + 1))
         if 'ret' in a:
             sig = X.name_return(sig, a['ret'])
         if 'rename' in a:
